@@ -323,6 +323,7 @@ type c10Payload struct {
 	Frags  []string `json:"frags,omitempty"`
 	Policy int      `json:"policy,omitempty"` // 1.. = the queueing token interceptor of that policy (c10QueueCheck)
 	Pow    bool     `json:"pow,omitempty"`    // the consuming '^' interceptor (c10PluginCheck)
+	Usage  string   `json:"usage,omitempty"`  // token-interceptor usage pattern (c10UsageCheck)
 }
 
 // ---- token interceptors that hand out tokens without consuming input
@@ -558,6 +559,104 @@ func c10PluginCheckF(lb *lexer.Builder, src string, libraryBuilt bool) (kind, de
 	return "plugin-no-eof", "end of input never reported"
 }
 
+// Token-interceptor usage patterns (round 12). Two ways plugins legitimately combine their own reading with
+// the base lexer's, each with an oracle that needs no second lexeme grammar:
+//
+//	retag:   t := next(); for one spelling the plugin returns l.NewTokenAt(kw, t.Literal, t.Start.Line,
+//	         t.Start.Column) instead of t. The stream must equal the plain lexer's except for that Type
+//	         (literal, start, end, after-newline flag).
+//	skipper: the plugin consumes text itself with ReadChar (block comments /*...*/ plus the blanks behind
+//	         them, and a one-byte sigil @) and then calls next() in the same invocation. The stream must
+//	         equal the plain lexer's on the same source with the consumed bytes replaced by blanks: what a
+//	         plugin consumes is a gap, and the tokens behind it start where they start.
+func c10UsageBuilder(pattern string) *lexer.Builder {
+	lbx := lexer.NewBuilder()
+	kw := lbx.RegisterTokenType("kw_b")
+	switch pattern {
+	case "retag":
+		lbx.UseTokenInterceptor(func(l *lexer.Lexer, next func() token.Token) token.Token {
+			t := next()
+			if t.Type == token.IDENT && t.Literal == "b" {
+				return l.NewTokenAt(kw, t.Literal, t.Start.Line, t.Start.Column)
+			}
+			return t
+		})
+	case "skipper":
+		lbx.UseTokenInterceptor(func(l *lexer.Lexer, next func() token.Token) token.Token {
+			for {
+				if l.CurrentChar == '/' && l.PeekChar() == '*' {
+					l.ReadChar()
+					l.ReadChar()
+					for !(l.CurrentChar == '*' && l.PeekChar() == '/') && !(l.CurrentChar == 0 && l.PeekChar() == 0) {
+						l.ReadChar()
+					}
+					l.ReadChar()
+					l.ReadChar()
+				} else if l.CurrentChar == '@' {
+					l.ReadChar()
+				} else {
+					break
+				}
+				for l.CurrentChar == ' ' || l.CurrentChar == '\t' {
+					l.ReadChar()
+				}
+			}
+			return next()
+		})
+	}
+	return lbx
+}
+
+// c10Blanked replaces what the skipper consumes (closed block comments, @) by blanks.
+func c10Blanked(src string) (string, bool) {
+	b := []byte(src)
+	for i := 0; i < len(b); i++ {
+		switch {
+		case b[i] == '@':
+			b[i] = ' '
+		case b[i] == '/' && i+1 < len(b) && b[i+1] == '*':
+			j := strings.Index(src[i+2:], "*/")
+			if j < 0 {
+				return "", false
+			}
+			for k := i; k < i+2+j+2; k++ {
+				b[k] = ' '
+			}
+			i += 2 + j + 1
+		}
+	}
+	return string(b), true
+}
+
+func c10UsageCheck(pattern, src string) (kind, detail string) {
+	plainSrc := src
+	if pattern == "skipper" {
+		var ok bool
+		if plainSrc, ok = c10Blanked(src); !ok {
+			return "", ""
+		}
+	}
+	want, k, _ := lexAll(lexer.NewBuilder(), plainSrc)
+	if k != "" {
+		return "", "" // the plain lexer's own totality is the main family's subject
+	}
+	got, k, d := lexAll(c10UsageBuilder(pattern), src)
+	if k != "" {
+		return "usage-" + k, d
+	}
+	if len(got) != len(want) {
+		return "usage-token-count", fmt.Sprintf("%d tokens with the %s plugin, the plain lexer gives %d on %q", len(got), pattern, len(want), plainSrc)
+	}
+	for i := range got {
+		g, w := got[i], want[i]
+		sameType := g.Type == w.Type || (pattern == "retag" && w.Type == token.IDENT && w.Literal == "b")
+		if !sameType || g.Literal != w.Literal || g.Start != w.Start || g.End != w.End || g.AfterNewline != w.AfterNewline {
+			return "usage-token-differs", fmt.Sprintf("token %d with the %s plugin: %s; the plain lexer on %q: %s", i, pattern, tokString(g), plainSrc, tokString(w))
+		}
+	}
+	return "", ""
+}
+
 func c10Run(c *core.Ctx) {
 	processWarmup(c)
 	lb := lexer.NewBuilder()
@@ -780,6 +879,60 @@ func c10Run(c *core.Ctx) {
 		}
 	}
 
+	// (1f) usage patterns: retag after next() through NewTokenAt; consume with ReadChar, then next()
+	{
+		run := func(pattern, src string, size int) {
+			c.Cur(src)
+			c.Inc("inputs")
+			c.Inc("usage_pattern_inputs")
+			if k, d := c10UsageCheck(pattern, src); k != "" && c.ShrinkOK("usage"+pattern+k) {
+				pl, _ := json.Marshal(c10Payload{Src: []byte(src), Usage: pattern})
+				c.Violate(core.Violation{Kind: k, Config: "token interceptor: " + pattern, Case: fmt.Sprintf("%q", src), Detail: d, Payload: pl, Size: size})
+			}
+		}
+		alpha := []byte{'a', 'b', '\n', ' ', '+', '(', '/', '='}
+		for L := 1; L <= 5; L++ {
+			gen.EachSeq(len(alpha), L, func(idx []int) bool {
+				if !c.Next() || c.Tick() {
+					return true
+				}
+				b := make([]byte, L)
+				for i, x := range idx {
+					b[i] = alpha[x]
+				}
+				run("retag", string(b), L)
+				return true
+			})
+		}
+		// skipper: every sequence <= 3 (4 thorough) over tokens of every first-byte class, each gap one of
+		// {blank, block comment, sigil, line feed + block comment, block comment + line feed}
+		lex := []string{"a", "1", "==", "<=", "+=", "++", "&&", "(", "'s'", "`t`", "+", ";", "!="}
+		gaps := []string{" ", " /* c */ ", " @", "\n/* c */ ", " /**/", " /* a */ /* b */ "}
+		n := 3
+		if c.Thorough() {
+			n = 4
+		}
+		for L := 1; L <= n; L++ {
+			gen.EachSeq(len(lex), L, func(idx []int) bool {
+				if !c.Next() || c.Tick() {
+					return true
+				}
+				gen.EachSeq(len(gaps), L, func(g []int) bool {
+					var sb strings.Builder
+					for i, x := range idx {
+						if i > 0 || g[0] != 0 {
+							sb.WriteString(gaps[g[i]])
+						}
+						sb.WriteString(lex[x])
+					}
+					run("skipper", sb.String(), L)
+					return true
+				})
+				return true
+			})
+		}
+	}
+
 	// (1g) queueing token interceptors (tokens handed out without consuming input; look-ahead): all byte
 	// strings <= 5 over {a x ; LF SP ( " /} and all sequences <= 3 of the token alphabet in three joinings
 	{
@@ -958,6 +1111,12 @@ func c10Replay(pl json.RawMessage) (string, []core.Violation) {
 	for i, t := range toks {
 		out += fmt.Sprintf("  %d: %v nl=%v\n", i, t, t.AfterNewline)
 	}
+	if p.Usage != "" {
+		if k, d := c10UsageCheck(p.Usage, src); k != "" {
+			return out + "token interceptor: " + p.Usage, []core.Violation{{Kind: k, Case: fmt.Sprintf("%q", src), Detail: d}}
+		}
+		return out, nil
+	}
 	if p.Pow {
 		variant := 0
 		if p.Policy == -1 {
@@ -989,7 +1148,7 @@ func c10Replay(pl json.RawMessage) (string, []core.Violation) {
 func init() {
 	core.Register(&core.PropSpec{
 		ID: "C10", Level: "exploration",
-		Rule:     "ALL byte strings of length 0..n (n=5 quick, 6 thorough) over the 26-byte alphabet {a 1 0 x e . + - = ! < & | / \" ' ` \\ SP LF CR TAB ( { 0xC3 NUL} (one byte per lexer branch), each tokenised until end-of-input was returned 3 times, checked by a span-consistency oracle (positions inside the source, literal = source slice, gaps only white space/comments, no overlap, keyword classification, operator/identifier maximal munch, after-newline <=> LF in gap, stable end-of-input at len(src)); plus all sequences of <=3 (thorough: 4) of 63 well-formed lexeme fragments x all separator combinations compared token-by-token with an independent tokenizer. Every enumerated input is distinct; all are counted as non-trivial because each exercises the cursor/position bookkeeping (the empty input included once) Added families: 26 multi-byte chunks (byte order mark, UTF-8 sequences, long and truncated escapes) at the start / middle / end of every byte string of length <= 2; string literals made of every pair of the 61 literal fragments (both quotes) followed by a token, compared with the independent tokenizer; every code point of U+2000..U+203F and one per UTF-8 length in comments, strings, templates and identifiers; the scale family; identifier spellings (keyword prefixes/suffixes/infixes, _ and $ forms, lengths 2..40); queueing token interceptors (5 policies: 1, 2 or 3 synthesized zero-width tokens after/before library tokens, replayed from a queue without consuming input, also under a stacked pass-through interceptor) on all byte strings <= 5 over 8 bytes and all token sequences <= 3 in 3 joinings: the tokens the library builds equal the plain lexer's.",
+		Rule:     "ALL byte strings of length 0..n (n=5 quick, 6 thorough) over the 26-byte alphabet {a 1 0 x e . + - = ! < & | / \" ' ` \\ SP LF CR TAB ( { 0xC3 NUL} (one byte per lexer branch), each tokenised until end-of-input was returned 3 times, checked by a span-consistency oracle (positions inside the source, literal = source slice, gaps only white space/comments, no overlap, keyword classification, operator/identifier maximal munch, after-newline <=> LF in gap, stable end-of-input at len(src)); plus all sequences of <=3 (thorough: 4) of 63 well-formed lexeme fragments x all separator combinations compared token-by-token with an independent tokenizer. Every enumerated input is distinct; all are counted as non-trivial because each exercises the cursor/position bookkeeping (the empty input included once) Added families: 26 multi-byte chunks (byte order mark, UTF-8 sequences, long and truncated escapes) at the start / middle / end of every byte string of length <= 2; string literals made of every pair of the 61 literal fragments (both quotes) followed by a token, compared with the independent tokenizer; every code point of U+2000..U+203F and one per UTF-8 length in comments, strings, templates and identifiers; the scale family; identifier spellings (keyword prefixes/suffixes/infixes, _ and $ forms, lengths 2..40); queueing token interceptors (5 policies: 1, 2 or 3 synthesized zero-width tokens after/before library tokens, replayed from a queue without consuming input, also under a stacked pass-through interceptor) on all byte strings <= 5 over 8 bytes and all token sequences <= 3 in 3 joinings: the tokens the library builds equal the plain lexer's. Usage patterns of token interceptors (round 12): retag - next() and then NewTokenAt for one spelling: the stream equals the plain lexer's except for that type, all byte strings <= 5 over 8 bytes; skipper - the interceptor consumes block comments and a sigil itself with ReadChar and then calls next(): the stream equals the plain lexer's on the source with the consumed bytes blanked, all sequences <= 3 (4) over 13 lexemes x 6 gap kinds per gap.",
 		Assume:   []string{"line model: LF ends a line; a lone CR in a gap is don't-care for the after-newline flag (property does not define it)", "columns are byte columns", "position base calibrated on the token of the input \"a\""},
 		QuickSec: 300, ThorSec: 1800, Run: c10Run, Replay: c10Replay,
 		Evals: "inputs", Nontriv: "nontrivial_inputs",
